@@ -67,5 +67,51 @@ def main():
     sys.exit(1 if fails else 0)
 
 
+def main_inactive():
+    """bounded stand-in: result-preserving clean-up functions on a fixed network with energised branches that end at dead buses"""
+    fails = []
+
+    def build(dead_as_from):
+        net = pp.create_empty_network()
+        b = pp.create_buses(net, 6, 20.)
+        hv = pp.create_bus(net, 110.)
+        pp.create_ext_grid(net, hv, vm_pu=1.02)
+        pp.create_transformer_from_parameters(net, hv, b[0], sn_mva=25., vn_hv_kv=110., vn_lv_kv=20., vkr_percent=0.4, vk_percent=10., pfe_kw=10., i0_percent=0.05)
+        for f, t in ((0, 1), (1, 2), (2, 3)):
+            pp.create_line_from_parameters(net, b[f], b[t], 6., 0.12, 0.11, 260., 0.6)
+        # a cable that is energised from b[3] but open at its far end (dead-end bus b[4]): it still draws charging power
+        far, near = b[4], b[3]
+        fb, tb = (far, near) if dead_as_from else (near, far)
+        l = pp.create_line_from_parameters(net, fb, tb, 9., 0.12, 0.11, 300., 0.6)
+        pp.create_switch(net, far, l, "l", closed=False)
+        # an out-of-service bus with an in-service stub line
+        net.bus.at[b[5], "in_service"] = False
+        pp.create_line_from_parameters(net, b[5], b[2], 4., 0.12, 0.11, 280., 0.6)
+        pp.create_load(net, b[2], 4., 1.); pp.create_load(net, b[3], 2., .5); pp.create_load(net, b[5], 1., .2)
+        pp.create_sgen(net, b[1], 1., 0., in_service=False)
+        return net
+    for dead_as_from in (False, True):
+        for name, op in (("drop_inactive_elements", pp.drop_inactive_elements), ("drop_out_of_service_elements", pp.drop_out_of_service_elements)):
+            net = build(dead_as_from)
+            ref = copy.deepcopy(net); pp.runpp(ref)
+            try:
+                op(net)
+                pp.runpp(net)
+            except Exception as e:
+                fails.append(f"{name} (dead end is the {'from' if dead_as_from else 'to'} bus): {type(e).__name__}: {str(e)[:80]}")
+                continue
+            common = [i for i in net.bus.index if i in ref.bus.index and not np.isnan(ref.res_bus.vm_pu.at[i])]
+            d = np.max(np.abs(net.res_bus.vm_pu.loc[common].values - ref.res_bus.vm_pu.loc[common].values))
+            dq = abs(net.res_ext_grid.q_mvar.sum() - ref.res_ext_grid.q_mvar.sum())
+            if d > 1e-8 or dq > 1e-6:
+                fails.append(f"{name} (open-ended / stub line with the dead bus as its {'from' if dead_as_from else 'to'} bus): bus voltages change by "
+                             f"{d:.2e} pu, slack reactive power by {dq:.4f} Mvar")
+    for f in fails:
+        print("REPRODUCED:", f)
+    if not fails:
+        print("not reproduced: dropping inactive elements keeps the power flow results")
+    sys.exit(1 if fails else 0)
+
+
 if __name__ == "__main__":
     main()
